@@ -30,31 +30,30 @@ RECURSIVE HighBit(_)
 HighBit(a) == IF a < 2 THEN 0 ELSE 1 + HighBit(a \div 2)            \* a > 0
 
 Init == v = 0 /\ ret = -1 /\ steps = 0
-Step(nv, r) == v' = nv /\ ret' = r /\ steps' = steps + 1
+Step(nv, r) == steps < MaxSteps /\ v' = nv /\ ret' = r /\ steps' = steps + 1
 
-Set(x)    == Step(x, -1)
+Set(x)    == TRUE /\ Step(x, -1)
 Add(x)    == Fits(v + x) /\ Step(v + x, -1)
 Sub(x)    == v - x >= 0 /\ Step(v - x, -1)
 Mul(x)    == (IF x = 0 THEN TRUE ELSE v <= (Limit - 1) \div x) /\ Step(v * x, -1)
 Div(x)    == x # 0 /\ Step(v \div x, v % x)                        \* returns the remainder
 ShlFits(k) == IF k >= WBits THEN v = 0 ELSE v <= (Limit - 1) \div Pow2(k)
 Shl(k)    == ShlFits(k) /\ Step(IF v = 0 THEN 0 ELSE v * Pow2(k), -1)
-Shr(k)    == Step(IF k >= WBits THEN 0 ELSE v \div Pow2(k), -1)
-Or(x)     == Step(BitOr(v, x), -1)
-And(x)    == Step(BitAnd(v, x), -1)
+Shr(k)    == TRUE /\ Step(IF k >= WBits THEN 0 ELSE v \div Pow2(k), -1)
+Or(x)     == TRUE /\ Step(BitOr(v, x), -1)
+And(x)    == TRUE /\ Step(BitAnd(v, x), -1)
 FirstBit  == v # 0 /\ Step(v, LowBit(v))
 LastBit   == v # 0 /\ Step(v, HighBit(v))
 \* comparisons with a word: ret encodes <, <=, >, >=, ==, != as a 6-bit number
 B(c) == IF c THEN 1 ELSE 0
-Cmp(x)    == Step(v, 32 * B(v < x) + 16 * B(v <= x) + 8 * B(v > x) + 4 * B(v >= x) + 2 * B(v = x) + B(v # x))
-Narrow    == Step(v, v % (Word * Word))                             \* explicit conversion to a double-word integer
-IsZero    == Step(v, B(v = 0))
+Cmp(x)    == TRUE /\ Step(v, 32 * B(v < x) + 16 * B(v <= x) + 8 * B(v > x) + 4 * B(v >= x) + 2 * B(v = x) + B(v # x))
+Narrow    == TRUE /\ Step(v, v % (Word * Word))                             \* explicit conversion to a double-word integer
+IsZero    == TRUE /\ Step(v, B(v = 0))
 
-Next == /\ steps < MaxSteps
-        /\ \/ \E x \in Operands \cup Wide : Set(x) \/ Add(x) \/ Sub(x) \/ Or(x) \/ And(x)
-           \/ \E x \in Operands : Mul(x) \/ Div(x) \/ Cmp(x)
-           \/ \E k \in Shifts : Shl(k) \/ Shr(k)
-           \/ FirstBit \/ LastBit \/ Narrow \/ IsZero
+Next == \/ \E x \in Operands \cup Wide : Set(x) \/ Add(x) \/ Sub(x) \/ Or(x) \/ And(x)
+        \/ \E x \in Operands : Mul(x) \/ Div(x) \/ Cmp(x)
+        \/ \E k \in Shifts : Shl(k) \/ Shr(k)
+        \/ FirstBit \/ LastBit \/ Narrow \/ IsZero
 Spec == Init /\ [][Next]_vars
 TypeOK == Fits(v)
 =============================================================================
